@@ -113,9 +113,10 @@ Definition keep_host (incl : bool) (l : list ev) (e : ev) : bool :=
   is_host e &&
   (if incl then ts e <=? maxZ 0 (map eend (host_steps l)) else ts e <? maxZ 0 (map ts (host_steps l))).
 Definition kept_host (incl : bool) (l : list ev) : list ev := filter (keep_host incl l) l.
-(* gpu_kernels.merge(cpu_kernels["correlation"], on="correlation", how="inner") *)
+(* gpu_kernels.merge(cpu_kernels["correlation"].drop_duplicates(), on="correlation", how="inner"): one row per device row whose
+   correlation id is carried by some kept host row, however many carry it *)
 Definition kept_dev (incl : bool) (l : list ev) : list ev :=
-  flat_map (fun g => map (fun _ => g) (filter (fun c => corr c =? corr g) (kept_host incl l))) (filter is_dev l).
+  filter (fun g => existsb (fun c => corr c =? corr g) (kept_host incl l)) (filter is_dev l).
 Definition trim (incl : bool) (l : list ev) : list ev :=
   if (Z.of_nat (List.length (host_steps l)) <? 2) then l else kept_dev incl l ++ kept_host incl l.
 
